@@ -582,10 +582,18 @@ def rule_R5x(ck):
     from .c05 import run_parser
     repo = ck.repo
     I = lazy(repo)
+    try:
+        pre = I.explore(lambda: I.module_get("parser", "local_symbol_expression"))
+    except Unsupported as ex:
+        raise Unknown(f"the parser module does not fold: {ex}") from None
+    if len(pre) != 1 or pre[0].kind != "return":
+        raise Unknown(f"the parser module does not fold: {pre}")
     for text, want in (("10$", ("10$", False)), ("10$:", ("10$", True)), ("1:", ("1", True)), ("7", None), ("12", None)):
         try:
             r, pos, errs, raised = run_parser(I, "local_symbol_expression", text)
-        except Unknown:
+        except Unknown as ex:
+            if "Unsupported" in str(ex) or "external call" in str(ex) or "not modelled" in str(ex):
+                raise
             r, pos, errs, raised = None, 0, [], "no parse"
         got = (r.fields.get("name"), r.fields.get("is_necessarily_label")) if isinstance(r, Rec) else None
         ck.instance(("local-reference", text), {"text": text, "parsed as": repr(got), "declined": raised}, fn="parser::local_symbol_expression")
